@@ -33,6 +33,52 @@ impl Tier {
 
 pub const NFAULT: usize = 24;
 
+/// Counts distinct 64-bit digests with bounded memory: exact up to `CAP`
+/// entries, beyond that only every 64th digest value (by its low bits) is
+/// remembered.  `len()` is then a lower bound of the true number of
+/// distinct digests (it never over-counts), exact while below the cap.
+pub struct Distinct {
+    exact: HashSet<u64>,
+    sampled: HashSet<u64>,
+}
+
+const DISTINCT_CAP: usize = 6_000_000;
+
+impl Default for Distinct {
+    fn default() -> Self {
+        Distinct {
+            exact: HashSet::new(),
+            sampled: HashSet::new(),
+        }
+    }
+}
+
+impl Distinct {
+    pub fn insert(&mut self, d: u64) {
+        if self.exact.len() < DISTINCT_CAP {
+            self.exact.insert(d);
+        } else if d & 63 == 0 && self.sampled.len() < DISTINCT_CAP && !self.exact.contains(&d) {
+            self.sampled.insert(d);
+        }
+    }
+    pub fn merge(&mut self, other: Distinct) {
+        for d in other.exact {
+            self.insert(d);
+        }
+        for d in other.sampled {
+            if !self.exact.contains(&d) && self.sampled.len() < DISTINCT_CAP {
+                self.sampled.insert(d);
+            }
+        }
+    }
+    pub fn len(&self) -> usize {
+        self.exact.len() + self.sampled.len()
+    }
+    pub fn saturated(&self) -> bool {
+        self.exact.len() >= DISTINCT_CAP
+    }
+}
+
 /// What one run (one case, all its fault points) reports back.
 #[derive(Clone, Debug)]
 pub struct RunOut {
@@ -118,8 +164,8 @@ pub trait Prop: Sync {
 pub struct Agg {
     pub runs: u64,
     pub execs: u64,
-    pub digests: HashSet<u64>,
-    pub nontrivial: HashSet<u64>,
+    pub digests: Distinct,
+    pub nontrivial: Distinct,
     pub batch_digest: u64,
     pub faults: [u64; NFAULT],
     pub hits: [u64; similar::verif::HITS],
@@ -135,8 +181,8 @@ impl Default for Agg {
         Agg {
             runs: 0,
             execs: 0,
-            digests: HashSet::new(),
-            nontrivial: HashSet::new(),
+            digests: Distinct::default(),
+            nontrivial: Distinct::default(),
             batch_digest: 0,
             faults: [0; NFAULT],
             hits: [0; similar::verif::HITS],
@@ -186,8 +232,8 @@ impl Agg {
     fn merge(&mut self, other: Agg) {
         self.runs += other.runs;
         self.execs += other.execs;
-        self.digests.extend(other.digests);
-        self.nontrivial.extend(other.nontrivial);
+        self.digests.merge(other.digests);
+        self.nontrivial.merge(other.nontrivial);
         self.batch_digest = self.batch_digest.wrapping_add(other.batch_digest);
         for i in 0..NFAULT {
             self.faults[i] += other.faults[i];
@@ -513,7 +559,8 @@ pub fn write_evidence<P: Prop>(
             "exhaustive": false,
             "simulated_runs": agg.runs,
             "executions_of_real_code": agg.execs,
-            "distinct_executions": agg.digests.len(),
+            "distinct_runs": agg.digests.len(),
+            "distinct_counts_are_lower_bounds": agg.digests.saturated() || agg.nontrivial.saturated(),
             "seeds": format!("batch seed {} -> run seeds splitmix(seed, property, 0..{})", seed, agg.runs),
             "runs_per_hour": (agg.runs as f64 / wall * 3600.0) as u64,
             "executions_per_hour": (agg.execs as f64 / wall * 3600.0) as u64,
@@ -534,6 +581,7 @@ pub fn write_evidence<P: Prop>(
     });
     let dir = out_dir().join("evidence");
     let _ = std::fs::create_dir_all(&dir);
-    let path = dir.join(format!("{}.json", p.id()));
+    let suffix = std::env::var("VERIF_EVIDENCE_SUFFIX").unwrap_or_default();
+    let path = dir.join(format!("{}{}.json", p.id(), suffix));
     std::fs::write(&path, serde_json::to_string_pretty(&ev).unwrap()).expect("write evidence");
 }
